@@ -333,10 +333,62 @@ def normalise_index_loops(fn):
     return fn
 
 
+def inline_callable_aliases(fn):
+    """append = out.append ... append(x)   ->   out.append(x);   choice = np.random.choice ... choice(a)  ->  np.random.choice(a).
+    A local assigned ONCE, at the top level of the function body, a dotted attribute chain, and used only as the callee
+    of calls; the chain's base name is not assigned again after the alias.  (A performance idiom: a local look-up instead of
+    an attribute look-up per call.  Nested functions see the alias too.)"""
+    import copy
+    def dotted(e):
+        if isinstance(e, ast.Name):
+            return [e.id]
+        if isinstance(e, ast.Attribute):
+            b = dotted(e.value)
+            return None if b is None else b + [e.attr]
+        return None
+    params = {a.arg for a in fn.args.posonlyargs + fn.args.args + fn.args.kwonlyargs}
+    stores = {}
+    for n in ast.walk(fn):
+        if isinstance(n, ast.Name) and isinstance(n.ctx, (ast.Store, ast.Del)):
+            stores.setdefault(n.id, []).append(n)
+    aliases = {}
+    for st in fn.body:
+        if isinstance(st, ast.Assign) and len(st.targets) == 1 and isinstance(st.targets[0], ast.Name) and isinstance(st.value, ast.Attribute):
+            name, d = st.targets[0].id, dotted(st.value)
+            if d is None or name in params or len(stores.get(name, [])) != 1 or d[0] == name:
+                continue
+            base_later = [x for x in stores.get(d[0], []) if (x.lineno, x.col_offset) > (st.lineno, st.col_offset)]
+            if base_later:
+                continue
+            uses = [x for x in ast.walk(fn) if isinstance(x, ast.Name) and x.id == name and isinstance(x.ctx, ast.Load)]
+            callee_ids = {id(c.func) for c in ast.walk(fn) if isinstance(c, ast.Call)}
+            if uses and all(id(u) in callee_ids for u in uses):
+                aliases[name] = (st, st.value)
+    if not aliases:
+        return fn
+    fn = copy.deepcopy(fn)
+    # (positions are preserved by deepcopy: find the alias statements again by name)
+    class T(ast.NodeTransformer):
+        def visit_Call(self, node):
+            self.generic_visit(node)
+            if isinstance(node.func, ast.Name) and node.func.id in aliases:
+                node.func = ast.copy_location(copy.deepcopy(aliases[node.func.id][1]), node.func)
+            return node
+    fn = T().visit(fn)
+    fn.body = [st for st in fn.body if not (isinstance(st, ast.Assign) and len(st.targets) == 1 and isinstance(st.targets[0], ast.Name) and st.targets[0].id in aliases
+                                            and isinstance(st.value, ast.Attribute))] or [ast.Pass()]
+    ast.fix_missing_locations(fn)
+    return fn
+
+
 class Func:
     def __init__(self, module, cls, node, relpath):
         self.module = module          # dotted module name
         self.cls = cls                # class name or None
+        try:
+            node = inline_callable_aliases(node)
+        except Exception:
+            pass
         try:
             node = scalarise_dicts(node)
             node = normalise_updates(node)
